@@ -184,16 +184,20 @@ def run_server(kconfig, sdkconfig, sdkconfig_rename, default_version=MAX_PROTOCO
                 # if no new filename is supplied, use existing sdkconfig path, otherwise update the path
                 if req["load"] is None:
                     req["load"] = sdkconfig
-                else:
-                    sdkconfig = req["load"]
 
             if "save" in req:
                 if req["save"] is None:
-                    req["save"] = sdkconfig
-                else:
-                    sdkconfig = req["save"]
+                    # a file loaded by this very request becomes the current one first
+                    req["save"] = req.get("load", sdkconfig)
 
             error = handle_request(config, req)
+
+            # The file named by the request becomes the current file only if it could be loaded/saved:
+            # an unreadable or unwritable path must not redirect later "load": null / "save": null requests.
+            if MIN_PROTOCOL_VERSION <= req["version"] <= MAX_PROTOCOL_VERSION:
+                for key, failure in (("load", "Failed to load from"), ("save", "Failed to save to")):
+                    if key in req and not any(str(err).startswith(failure) for err in error):
+                        sdkconfig = req[key]
 
             after = kconfgen.get_json_values(config)
             after_ranges = get_ranges(config)
